@@ -13,6 +13,8 @@ CLAIMED = {
  "C09": ("exploration", "6.9", "seeded histories of credited / refunded deposits, transfers and withdrawal attempts with crash/restart and dependency faults on burn/send; supply conservation, exact debit, shared gap-free L2 sequence, immutable denom mapping checked after every block", "lock-step reference model over real BaseApp + fault injection"),
  "C13": ("exploration", "6.13", "seeded validator-set histories whose every end-block batch is applied to the real CometBFT ValidatorSet, with crash between FinalizeBlock and Commit; engine set = state = last powers, index bijection, cap, purge and historical-info retention checked after every block", "seeded simulation with real CometBFT validator-set code as the engine stub"),
  "C14": ("exploration", "6.14", "executor-change plans (fresh / reused operator, fresh / reused key, malformed) registered around other validator operations with node restarts in between; at the plan height the engine set, state and executor list must be exactly the plan's and block processing must not fail", "seeded simulation with restart faults and engine stub"),
+ "C07": ("fault_enumeration", "6.7", "for each generated deposit (recipient x amount x payload classes) the handler is executed fault-free while its calls through the bank / account-keeper seams and the hook-target message server are recorded, then re-executed from the same state once per (call index x {error, panic}); contained-region faults must still yield SUCCESS with a complete credit or a complete refund, other faults must abort atomically and be retryable, the next sequence must always be processable, hook gas is bounded by the allowance", "systematic fault enumeration at every recorded dependency call over seeded inputs"),
+ "C12": ("exploration", "6.12", "every permissioned message of both modules sent by current / past role holders, authorities and strangers across role rotations, executor-list and parameter changes, MsgExecuteMessages batches and bridge-info re-pointing attempts; access-table oracle for soundness and completeness, atomic rejection", "lock-step access-table model over real BaseApp nodes (L1 and L2)"),
 }
 PENDING = {}
 NA = {"C17": "pure functions of their byte inputs (hash/derivation formats, no aliasing): no schedule, clock, fault, crash point or history to simulate; deciding it is differential input testing, not deterministic simulation (DESIGN 6.17). Format agreement on system-reachable inputs is observed as a by-product by C03/C04/C08 through the independent prover."}
